@@ -399,6 +399,39 @@ def gen_ec_big(r, tier, f, focus):
           "timeout": 1500.0}
 
 
+def gen_ec_default(r, tier, f, focus):
+  """The shipped default max_diff = 2^24 (a 16.7 M entry table, about 3.2 GB
+  and 100 s per process): thorough tier only, a couple of runs."""
+  c = _pick_curve(r, [("secp256r1", 2), ("secp256k1", 1), ("secp224r1", 1)])
+  pool = [A.ec_healthy(r, c), A.ec_healthy(r, c)]
+  pair = A.ec_small_diff_pair(r, c, 2**24, inside=True)
+  d1 = int(pair[0]["d"], 16)
+  delta = r.choice([2**24 - 1, 2**23 + 5, r.randrange(2**20, 2**24)])
+  pair = [A.ec_from_priv(c, d1, "small_diff", delta=delta, role="a", pair=0,
+                         expect=["CheckECKeySmallDifference"]),
+          A.ec_from_priv(c, d1 + delta, "small_diff", delta=-delta, role="b",
+                         pair=0, expect=["CheckECKeySmallDifference"])]
+  pool += pair + [ec_weak_priv_spec(r, c, 1)]
+  r.shuffle(pool)
+  n = len(pool)
+  pi = [j for j in range(n) if pool[j]["fam"] == "small_diff"]
+  wi = [j for j in range(n) if pool[j]["fam"].startswith("weak_priv")]
+  reg = lambda name: {"name": name, "how": "registry", "via": "all"}
+  ops = [{"op": "check", "check": reg("CheckECKeySmallDifference"),
+          "batch": list(range(n)), "oracle": []},
+         {"op": "check", "check": reg("CheckWeakECPrivateKey"),
+          "batch": wi + [pi[0]], "oracle": []},
+         {"op": "check", "check": reg("CheckECKeySmallDifference"),
+          "batch": pi, "oracle": []},
+         {"op": "check_all", "batch": list(range(n)), "log_level": 1,
+          "oracle": []}]
+  return {"engine": "A", "kind": "ec", "profile": "ec_default", "focus": focus,
+          "knobs": {"clock_seed": r.getrandbits(32), "max_diff": None,
+                    "denylist": {}},
+          "pool": pool, "initial_annotations": {}, "ops": ops,
+          "timeout": 3000.0}
+
+
 def _far_from_all(pool, j):
   """A healthy key is a neutral addition to a joint EC check (uniform keys are
   never within a table's reach of another key)."""
@@ -714,6 +747,50 @@ def gen_ecdsa(r, tier, f, focus):
   return {"engine": "A", "kind": "ecdsa", "profile": "ecdsa", "focus": focus,
           "knobs": knobs, "pool": pool, "initial_annotations": initial,
           "ops": ops, "timeout": 1500.0}
+
+
+def gen_ecdsa_large(r, tier, f, focus):
+  """Many signatures (up to 200) of many healthy issuers on a cheap curve,
+  with one biased group and one weak issuer key among them."""
+  c = _pick_curve(r, [("secp224r1", 3), ("brainpoolP256r1", 2),
+                      ("secp521r1", 1)])
+  nsig = r.randint(60, 90) if tier == "quick" else r.randint(120, 200)
+  pool = []
+  label = 0
+  while len(pool) < nsig:
+    iss = A.Issuer(r, c, "I%d" % label)
+    label += 1
+    pool += iss.healthy(r, r.randint(1, 12))
+  iss = A.Issuer(r, c, "I%d" % label)
+  label += 1
+  pool += iss.biased(r, r.choice(["msb", "prefix", "postfix"]))
+  wk = ec_weak_priv_spec(r, c)
+  iss = A.Issuer(r, c, "I%d" % label, d=int(wk["d"], 16), weak_key=True)
+  arts = iss.healthy(r, 2)
+  for a in arts:
+    a.update(fam="weak_issuer_key", healthy=False)
+  pool += arts
+  r.shuffle(pool)
+  n = len(pool)
+  healthy = [j for j in range(n) if pool[j]["healthy"]]
+  reg = lambda name: {"name": name, "how": "registry", "via": "all"}
+  ops = [{"op": "check_all", "batch": list(range(n)), "log_level": 0,
+          "issuer_oracle": True, "oracle": []},
+         {"op": "check", "check": reg("CheckNonceMSB"),
+          "batch": r.sample(range(n), n), "oracle": []},
+         {"op": "check_all", "batch": healthy, "log_level": 1,
+          "issuer_oracle": True, "oracle": []},
+         {"op": "check", "check": reg("CheckNonceGeneralized"),
+          "batch": list(range(n)),
+          "oracle": [{"relation": "perm", "order": r.sample(range(n), n)}]}]
+  if r.random() < 0.5:
+    ops.insert(r.randint(1, 3), {"op": "restart"})
+  return {"engine": "A", "kind": "ecdsa", "profile": "ecdsa_large",
+          "focus": focus, "knobs": {"clock_seed": r.getrandbits(32),
+                                    "max_diff": 2 ** r.randint(8, 12),
+                                    "denylist": {}},
+          "pool": pool, "initial_annotations": {}, "ops": ops,
+          "timeout": 2400.0}
 
 
 def _sig_bad_call(r, names, c):
